@@ -479,8 +479,16 @@ func paramNames(fn *ssa.Function, spec *FuncSpec, sig *types.Signature, recvName
 	var names []string
 	var typs []types.Type
 	if fn != nil && len(fn.Params) > 0 {
-		for _, p := range fn.Params {
-			names = append(names, p.Name())
+		off := 0
+		if fn.Signature.Recv() != nil {
+			off = 1
+		}
+		for i, p := range fn.Params {
+			n := p.Name()
+			if spec != nil && i >= off && i-off < len(spec.Params) {
+				n = spec.Params[i-off]
+			}
+			names = append(names, n)
 			typs = append(typs, p.Type())
 		}
 		return names, typs
@@ -561,6 +569,11 @@ func (x *Exec) applySpecNamed(st *State, c *ssa.Call, fn *ssa.Function, spec *Fu
 	callOrd := 0
 	if c != nil {
 		callOrd = x.ordinal(c, "call")
+	}
+	if fn != nil && fn.Signature.Recv() != nil && !spec.NilRecv && len(args) > 0 {
+		if r, ok := args[0].(VRef); ok && !(r.T.Op == "app" && strings.HasPrefix(r.T.Name, "sub_")) {
+			x.oblige(st, fmt.Sprintf("%s/pre@%s#%d.recv", x.qname, calleeName, callOrd), "pre", Not(Eq(r.T, e.ar.IConst(0))), "receiver of "+calleeName+" is non-nil", x.posOf(c), nil)
+		}
 	}
 	for _, cl := range spec.Requires {
 		g := x.evalClause(st, env, cl, spec)
